@@ -605,6 +605,11 @@ fn every_primary_spellings() -> Acc {
         // option words are not insignificant inside parentheses (they leave the leading run)
         let is_option = matches!(kw.as_str(), "-depth" | "-threads" | "-maxdepth" | "-mindepth");
         let mut variants: Vec<(String, &str)> = vec![(format!(" {plain}\t"), "blanks")];
+        if !args.is_empty() {
+            for (sep, kind) in [("  ", "gaps-two-spaces"), ("\t", "gaps-tab"), ("\n", "gaps-lf"), (" \r\n ", "gaps-mixed")] {
+                variants.push((std::iter::once(kw.clone()).chain(args.iter().cloned()).collect::<Vec<_>>().join(sep), kind));
+            }
+        }
         if !is_option {
             variants.push((format!("( {plain} )"), "parens-spaced"));
             variants.push((format!("({plain})"), "parens-tight"));
